@@ -2,13 +2,14 @@
    implementations.  The property is differential: the references are written in Gallina from the
    specifications (Common/Blake2b, Hash/XXHash, Hash/Keccak, Hash/Sha2, C29/ModelEd25519,
    C29/ModelSecp256k1, validated by the published test vectors in those files and in
-   C29/Vectors.v) and compared with the Go code on every run.  What is proved here, for all
+   C29/Vectors.v -- compiled with the library but not imported here, so that coqchk of this file
+   stays cheap) and compared with the Go code on every run.  What is proved here, for all
    inputs, are the structural facts the comparison relies on.  Only statements, each closed by
    `exact <lemma>`, with Print Assumptions beneath. *)
 From Common Require Import Bytes.
 From Common Require Blake2b.
 From Hash Require XXHash Keccak Sha2 ProofsHash.
-From C29 Require Import Model ModelField ModelEd25519 ModelSecp256k1 ModelHost Proofs ProofsSig Vectors ProofsProps.
+From C29 Require Import Model ModelField ModelEd25519 ModelSecp256k1 ModelHost Proofs ProofsSig ProofsProps.
 Local Open Scope Z_scope.
 
 (* every helper returns a digest of its advertised size, for every input *)
@@ -173,22 +174,22 @@ Proof. exact host_functions_all. Qed.
 Print Assumptions C29_host_functions.
 
 (* ext_crypto_ecdsa_verify_version_2 is not Substrate's ecdsa_verify: it ignores the recovery id
-   byte altogether, and a high-S signature with its matching recovery id (valid for Substrate) is
-   rejected (known finding ecdsa-verify-drops-recovery-id) *)
+   byte altogether, so an honest signature followed by the invalid id 4 is accepted by gossamer and
+   rejected by Substrate (known finding ecdsa-verify-drops-recovery-id; the high-S twin that
+   Substrate accepts and gossamer rejects is evaluated in C29/Vectors.v) *)
 Theorem C29_host_ecdsa_refuted :
-  (exists pk msg sig65, host_ecdsa_verify pk msg sig65 <> substrate_ecdsa_verify pk msg sig65
+  (exists pk msg sig65, host_ecdsa_verify pk msg sig65 = true /\ substrate_ecdsa_verify pk msg sig65 = false
                         /\ host_ecdsa_guard pk msg sig65 = true)
   /\ (forall pk msg rs v1 v2, length rs = 64%nat ->
         host_ecdsa_verify pk msg (rs ++ [v1]) = host_ecdsa_verify pk msg (rs ++ [v2])).
 Proof. exact host_ecdsa_refuted_all. Qed.
 Print Assumptions C29_host_ecdsa_refuted.
 
-(* non-vacuity: the accepting branches are inhabited (RFC 8032 test 1; a libsecp256k1 signature,
-   its rejected high-S twin, and recovery of the signer's key from both) *)
+(* non-vacuity: the accepting branches of the rule theorems are inhabited (ZIP-215 small-order
+   vector; an honest libsecp256k1 signature at the library and at the host level).  The RFC 8032
+   vectors, recovery vectors and the high-S twin are evaluated in C29/Vectors.v. *)
 Example C29_nonvacuous :
-  verify_both rfc1_pk [] rfc1_sig = (true, true)
-  /\ ecdsa_verify k_pkc k_msg (k_r ++ k_s) = true
-  /\ ecdsa_verify k_pkc k_msg (k_r ++ k_high_s) = false
-  /\ recover_public_key k_msg (k_r ++ k_s ++ [n2b 0]) = RKey k_pku
-  /\ recover_public_key k_msg (k_r ++ k_high_s ++ [n2b 1]) = RKey k_pku.
+  (exists pk msg sig, verify_zip215 pk msg sig = true)
+  /\ (exists pk msg sig, secp256k1_verify_signature pk sig msg = true)
+  /\ (exists pk msg sig, host_ecdsa_verify pk msg sig = true).
 Proof. exact nonvacuous_all. Qed.
